@@ -21,6 +21,8 @@ func init() {
 			{ID: "C16-R4", Doc: "registry check precedes use of a machine", Run: c16r4},
 			{ID: "C16-R5", Doc: "a worker receives invocations dependencies-first", Run: c16r5},
 			{ID: "C16-R6", Doc: "a Func records the location of the user's call (runtime.Caller depth matches the distance from the API)", Run: c16r6},
+			{ID: "C16-R7", Doc: "registry comparison starts at the first Func", Run: c16r7},
+			{ID: "C16-R8", Doc: "GobEncode sends every argument exactly once, as given", Run: c16r8},
 		},
 	})
 }
